@@ -78,31 +78,54 @@ pub fn child(args: &[&str], stdin_data: &str, timeout_ms: u64) -> (String, Strin
   use std::io::{Read, Write};
   use std::process::{Command, Stdio};
   let exe = std::env::current_exe().expect("current_exe");
-  let mut ch = Command::new(exe)
-    .arg("child")
-    .args(args)
-    .stdin(Stdio::piped())
-    .stdout(Stdio::piped())
-    .stderr(Stdio::null())
-    .spawn()
-    .expect("spawn child");
+  // a busy machine can refuse a new process for a moment (EAGAIN): that is no observation about the implementation
+  let mut tries = 0;
+  let mut ch = loop {
+    match Command::new(&exe).arg("child").args(args).stdin(Stdio::piped()).stdout(Stdio::piped()).stderr(Stdio::null()).spawn() {
+      Ok(c) => break c,
+      Err(e) => {
+        tries += 1;
+        if tries > 150 {
+          panic!("spawn child: {}", e);
+        }
+        std::thread::sleep(std::time::Duration::from_millis(200));
+      }
+    }
+  };
   {
     let mut si = ch.stdin.take().unwrap();
     let _ = si.write_all(stdin_data.as_bytes());
   }
   // the output is read while the child runs: a child that writes more than the pipe holds would otherwise wait for
   // a reader for ever (and be taken for a run into the time limit)
-  let mut so = ch.stdout.take().unwrap();
-  let reader = std::thread::spawn(move || {
+  // (a small stack; when the system refuses one more thread the output is read after the child has ended, as before)
+  let so = std::sync::Arc::new(std::sync::Mutex::new(ch.stdout.take()));
+  let so2 = so.clone();
+  let spawned = std::thread::Builder::new().stack_size(128 * 1024).spawn(move || {
     let mut out = Vec::new();
-    let _ = so.read_to_end(&mut out);
+    if let Some(mut pipe) = so2.lock().ok().and_then(|mut g| g.take()) {
+      let _ = pipe.read_to_end(&mut out);
+    }
     String::from_utf8_lossy(&out).to_string()
   });
+  let collect = move |spawned: std::io::Result<std::thread::JoinHandle<String>>| -> String {
+    match spawned {
+      Ok(h) => h.join().unwrap_or_default(),
+      Err(_) => {
+        let mut out = String::new();
+        if let Some(mut pipe) = so.lock().ok().and_then(|mut g| g.take()) {
+          let _ = pipe.read_to_string(&mut out);
+        }
+        out
+      }
+    }
+  };
+  let mut spawned = Some(spawned);
   let start = std::time::Instant::now();
   loop {
     match ch.try_wait() {
       Ok(Some(status)) => {
-        let out = reader.join().unwrap_or_default();
+        let out = collect(spawned.take().unwrap());
         let desc = if status.success() {
           "ok".to_string()
         } else {
@@ -127,7 +150,7 @@ pub fn child(args: &[&str], stdin_data: &str, timeout_ms: u64) -> (String, Strin
           let _ = ch.kill();
           let _ = ch.wait();
           // what the child wrote before it was stopped (callers that ignore it lose nothing)
-          let out = reader.join().unwrap_or_default();
+          let out = collect(spawned.take().unwrap());
           return ("timeout".to_string(), out);
         }
         std::thread::sleep(std::time::Duration::from_millis(2));
